@@ -103,6 +103,22 @@ Definition tr_findChild (g_e : gelem) (g_name : gstr) : option (option gchild * 
 Definition tr_newElem (g_kind : Z) (g_name : gstr) : option gelem :=
   Some {| ge_kind := g_kind; ge_name := g_name; ge_value := ([] : gstr); ge_children := []; ge_line := [] |}.
 
+(* elem.getElem *)
+Definition tr_getElem {H : Type} (g_findChild : H -> gstr -> option H * bool) (g_e : option H) (g_pathVec : list gstr) : option (option H * bool) :=
+  let g_targetNode := g_e in
+  match fold_left (fun g_st g_item => match g_st with None => None | Some (inr g_r) => Some (inr g_r) | Some (inl g_targetNode) =>
+      (if ((gs_is_some g_targetNode)) then (let '(g_t, g_ok) := (gs_find g_findChild g_targetNode g_item) in
+      if (negb g_ok)
+      then (Some (inr (None, true)))
+      else (let g_targetNode := g_t in
+      Some (inl g_targetNode))) else None)
+    end) g_pathVec (Some (inl g_targetNode)) with
+  | None => None
+  | Some (inr g_r) => Some g_r
+  | Some (inl g_targetNode) =>
+    Some (g_targetNode, false)
+  end.
+
 (* elem.getDomain; (g_node0, g_err0) = e.getElem(pathVec) *)
 Definition tr_getDomain (g_path : gstr) (g_node0 : gelem) (g_err0 : bool) : option (list gstr * bool) :=
   match tr_analysisPath g_path with None => None | Some g_pathVec =>
